@@ -448,6 +448,27 @@ func (s *Service) mainLoop() {
 // is running on the leader or a follower.
 func (s *Service) writeToBatcher() {
 	defer s.wg.Done()
+
+	// write passes a set of CDC events to the batcher, unless the high watermark
+	// shows they have already been transmitted.
+	write := func(o *proto.CDCIndexedEventGroup) {
+		if o.Index != 0 && o.Index <= s.highWatermark.Load() {
+			// High watermark has advanced since we processed these CDC events.
+			// This could happen on followers if the Leader has advanced the HWM
+			// but this node hasn't even had the event generated by its underlying
+			// database yet.
+			stats.Add(numBatcherWriteIgnored, 1)
+			return
+		}
+		if _, err := s.batcher.WriteOne(o, nil); err != nil {
+			s.logger.Printf("error writing CDC events to batcher: %v", err)
+		} else {
+			s.writesToBatcher.Add(1)
+			stats.Add(numBatcherWrites, 1)
+			stats.Add(numBatcherEventsWrite, int64(len(o.Events)))
+		}
+	}
+
 	for {
 		select {
 		case o := <-s.in:
@@ -455,24 +476,26 @@ func (s *Service) writeToBatcher() {
 				// Channel closed, exiting goroutine.
 				return
 			}
-			if o.Index != 0 && o.Index <= s.highWatermark.Load() {
-				// High watermark has advanced since we processed these CDC events.
-				// This could happen on followers if the Leader has advanced the HWM
-				// but this node hasn't even had the event generated by its underlying
-				// database yet.
-				stats.Add(numBatcherWriteIgnored, 1)
-				continue
-			}
-			if _, err := s.batcher.WriteOne(o, nil); err != nil {
-				s.logger.Printf("error writing CDC events to batcher: %v", err)
-			} else {
-				s.writesToBatcher.Add(1)
-				stats.Add(numBatcherWrites, 1)
-				stats.Add(numBatcherEventsWrite, int64(len(o.Events)))
-			}
+			write(o)
 
 		case ch := <-s.snapshotCh:
 			stats.Add(numSnapshotSync, 1)
+
+			// Events generated by log entries applied before this snapshot may still be
+			// waiting in the input channel. They must be part of the flush, because once
+			// the snapshot is taken those log entries will not be replayed after a restart.
+			for drained := false; !drained; {
+				select {
+				case o := <-s.in:
+					if o == nil {
+						return
+					}
+					write(o)
+				default:
+					drained = true
+				}
+			}
+
 			evg := &proto.CDCIndexedEventGroup{
 				Flush: true,
 			}
